@@ -939,6 +939,11 @@ macro_rules! do_int_text {
 fn cross_pool(rng: &mut Rng) -> Vec<Value> {
     use tera::value::Key;
     let mut pool = pools::kind_pool();
+    // byte strings: valid UTF-8 (a String accepts them), invalid, empty
+    pool.push(Value::bytes("ok\u{e9}\u{65e5}".as_bytes().to_vec()));
+    pool.push(Value::bytes(vec![0xc3]));
+    pool.push(Value::bytes(Vec::new()));
+    pool.push(Value::from(vec![Value::bytes(b"x".to_vec()), Value::bytes(vec![0xff])]));
     pool.extend(pools::int_values());
     pool.extend(pools::float_pool().into_iter().map(Value::from));
     pool.extend(pools::string_pool().into_iter().map(Value::from));
